@@ -1,4 +1,5 @@
 import DL.Model.Sched
+import DL.Gen.DlintShape
 
 /-!
 # C19 — dlint's report and exit status do not depend on scheduling
@@ -149,5 +150,20 @@ theorem report_order_by_path (s : List FileResult) (hnd : (s.map (·.path)).Nodu
 /-! non-vacuity -/
 example : (run [⟨"b", ["x"], []⟩, ⟨"a", [], ["p"]⟩]).map.map (·.1) = ["a", "b"] ∧
     (run [⟨"b", ["x"], []⟩, ⟨"a", [], ["p"]⟩]).count = 2 := by decide
+
+/-! ## the shape of `run_linter`, read off the source on every run
+
+`Gen/DlintShape.lean` (syn translator): the calls of `run_linter` (examples/dlint/main.rs) that make up its collection and
+reporting logic, in source order.  It is the shape M-SCHED models: one parallel `for_each` over `par_iter`; per file
+`read_to_string`, `lint_file`, one `fetch_add` on the counter and one `insert` into the map of results under its lock, or one
+`insert` into the map of failures; afterwards `pop_first` on the failures, then the results' `values` in key order, the
+counter's `load`, `exit`.  A `store` for the `fetch_add`, a batch loop, a `dedup` or `canonicalize` of the paths, an early
+`try_for_each`, printing from inside the workers (`eprintln!` before the parallel phase ends) — each changes this list. -/
+theorem dlint_shape_as_modelled :
+    DL.Gen.dlintCalls =
+      ["vec!", "vec!", "bail!", "debug!", "for_each", "par_iter", "read_to_string", "lint_file", "panic!", "fetch_add", "lock",
+       "insert", "insert", "lock", "pop_first", "lock", "values", "lock", "eprintln!", "display_diagnostics", "load",
+       "eprintln!", "exit"] := by
+  decide
 
 end DL.Props.C19
